@@ -53,7 +53,7 @@ check(
 )
 check(
     "C10", "fault_enumeration",
-    "Crash-and-restart simulation: for every seeded problem (project, dt, horizon, programs and their start/stop years) EVERY grid index is a crash point; the only surviving state is the saved Initialization, kept on a seeded durable medium (live object, deep copy, binary project file, calibration spreadsheet into a fresh parset); chains of up to 3 restarts. The restarted run is compared index by index with the tail of the uninterrupted run (bit identity on identical grids and lossless media, 1e-9 otherwise). Crash indices are enumerated per problem; problems, media and chains are sampled.",
+    "Crash-and-restart simulation: for every seeded problem (project, dt, horizon, programs and their start/stop years) EVERY grid index (the first year included) is a crash point; the only surviving state is the saved Initialization, kept on a seeded durable medium (live object, deep copy, binary project file, calibration spreadsheet into a fresh parset); chains of up to 3 restarts, several saved states alive at once (all saved and taken through their media before any is run) and runs resumed in segments through one parameter set. The restarted run is compared index by index with the tail of the uninterrupted run (bit identity on identical grids and lossless media, 1e-9 otherwise). Crash indices are enumerated per problem; problems, media and chains are sampled.",
     "Assumes the restarted simulation runs on the tail of the original time grid: cases where ProjectSettings.tvec re-anchored at Y yields another grid (inexact dt; property C03's subject) or where a step discontinuity sits on an inexactly reproduced grid value are counted and skipped, not judged.",
     "deterministic simulation: enumerated crash points + durable-state media + restart chains",
     "DESIGN.md 4 (C10)",
@@ -74,7 +74,7 @@ check(
 )
 check(
     "C20", "exploration",
-    "Seeded histories (<= 6) of read-only reporting calls on one shared Result (PlotData with mixed outputs / groups / explicit and default aggregations / time bins, interpolation, cascade values from results and data, coverage / allocation queries, exports, plots). Sequential specification of a read-only API: the Result digest is unchanged after every call; every returned series equals the series of the same single query issued alone on a pristine copy; sums equal the sum of parts, averages lie within parts, number totals equal the sum over populations, cascade stages never increase, cascade data equal the sum of databook entries.",
+    "Seeded histories (<= 6) of read-only reporting calls on one shared Result (PlotData with mixed outputs / groups / explicit and default aggregations / time bins, interpolation, cascade values from results and data, coverage / allocation queries, exports, plots). Sequential specification of a read-only API: the Result digest (arrays and link wiring) and a fixed set of probe reports are unchanged after every call; every returned series equals the series of the same single query issued alone on a pristine copy; sums equal the sum of parts, averages lie within parts, number totals equal the sum over populations, cascade stages never increase, cascade data equal the sum of databook entries.",
     "No fault dimension exists for this property; what the technique contributes is the history/order dimension and the shared-object invariant. Trusts matplotlib's agg backend and the pristine pickle copy.",
     "deterministic simulation: seeded call histories against a sequential read-only specification (isolated-query oracle)",
     "DESIGN.md 4 (C20)",
